@@ -1,68 +1,92 @@
 (* C06 — Documented concurrent use of Conn is free of data races.
    Statements only; every proof is [exact lemma].
 
-   What is proved here is the lock-protocol part: Model/LockProto.v interleaves
-   any number of threads, each executing any sequence of the routines that
-   touch Conn.pending, action by action, with NO guard on map accesses.  The
-   routines are not typed in: Gen/ConnLocks.v is regenerated from conn.go on
-   every run (go/ast: lock, unlock, map read, map write in source order per
-   function), so a change of the locking in the source re-opens
-   [C06_code_routines_well_locked].
+   What is proved here is the lock-protocol part, for ANY table (Model/LockTable.v): a table is, per
+   README role (Watch, EnquireLink, Submit, Send, Close, Done, PDU — and whatever they start), the control-flow
+   graph of lock operations and accesses to EVERY location of the connection state, each node with the set of
+   mutexes held when it is reached.  The system interleaves any number of threads, each calling any sequence
+   of the entries its role permits and taking any branch; accesses have NO guard in the semantics.  A data race
+   is a reachable state in which two different threads are both about to perform conflicting accesses (same
+   location, at least one write, not both atomic) — nothing orders them.
 
-   What is NOT proved here and is checked dynamically on every run instead:
-   that the compiled code performs exactly these accesses (the extraction is
-   syntactic), every access to state other than the pending table (context,
-   channels, net.Conn, the NextSequence callback: Go's documented guarantees),
-   and the Go memory model itself.  The harness runs the README workload and
-   the forced schedules of C05/C15 under `go build -race`; a report with a frame
-   inside go-smpp, or a runtime "concurrent map" abort, is the failing input. *)
-From V Require Import Model.Base Model.LockProto Gen.ConnLocks Proofs.ConnC06.
+   The table of the code, [conn_table] (Gen/ConnLocks.v), is regenerated from the source on every run
+   (harness/c06_extract.go: go/ast + go/types, callees, closures and defers inlined, path-sensitive in the held
+   set and the registered defers, aliases followed, locations classified by their Go type).  No theorem below
+   mentions a field, function or mutex name, and none is proved by evaluating [conn_table] at compile time:
+   the hypotheses [table_wf conn_table = true] and [loc_ok conn_table l = true] of [C06_code] are evaluated
+   by the kernel in the generated cases of every run, one per location, against the verdict the harness
+   computed; a location for which [loc_ok] is false is reported with the two access sites as the failing
+   input.
+
+   What is NOT proved here and is checked dynamically on every run instead: that the graph is a faithful
+   reading of the source (the translation is trusted; its lock events are observed on the running code through
+   the runtime's mutex-contention profile); state that is not a location of Conn (variables captured by
+   closures); roles the extraction could not interpret ([conn_unanalysed]); the Go memory model itself.  The
+   harness runs the README roles under `go build -race`, one child process per configuration (see
+   harness/c06_dyn.go); a report with a frame inside go-smpp, or a runtime "concurrent map" abort, is the
+   failing input. *)
+From Coq Require Import String.
+From V Require Import Model.Base Model.LockTable Gen.ConnLocks Proofs.ConnC06.
 Open Scope N_scope.
 
-(* Every function of package smpp that touches the pending table takes the free
-   mutex first, touches the map only while holding it, and releases it. *)
-Theorem C06_code_routines_well_locked :
-  forallb (fun x => routine_ok (snd x)) conn_routines = true /\ conn_routines <> [].
-Proof. exact conn_routines_ok. Qed.
+(* The invariant — a thread at a node holds what the node's certificate claims and runs an entry of its role;
+   every mutex is held by one writer or by readers only — is preserved by every step of a checked table. *)
+Theorem C06_invariant : forall T roles s tid c s' ev,
+  table_wf T = true -> tinv T roles s -> tstep T roles s tid c = Some (s', ev) -> tinv T roles s'.
+Proof. exact tstep_inv. Qed.
 
-(* Threads running routines of conn.go — any number of threads, any sequences — form a well-locked system. *)
-Theorem C06_code_programs : forall s,
-  holder s = None -> (forall t, uses_conn_routines (progs s t)) -> well_locked s.
-Proof. exact conn_programs_well_locked. Qed.
+(* Mutual exclusion: in a state satisfying the invariant, a mutex that one thread holds exclusively according to
+   its node's certificate is not held, in any mode, by another thread. *)
+Theorem C06_mutual_exclusion : forall T roles s t1 t2 n1 n2 nd1 nd2 m e,
+  tinv T roles s -> t1 <> t2 ->
+  pc s t1 = Some n1 -> find_node T n1 = Some nd1 -> In (m, true) (n_ls nd1) ->
+  pc s t2 = Some n2 -> find_node T n2 = Some nd2 -> In (m, e) (n_ls nd2) -> False.
+Proof. exact mutual_exclusion. Qed.
 
-(* In a well-locked system, under every schedule: *)
-(* a map access is executed only by the thread holding the mutex (mutual exclusion: the holder is one thread); *)
-Theorem C06_guarded : forall s t s' w, linv s -> lstep s t = Some (s', AMap w) -> holder s = Some t.
-Proof. exact guarded. Qed.
-Theorem C06_mutex_invariant : forall s t s' a, linv s -> lstep s t = Some (s', a) -> linv s'.
-Proof. exact lstep_inv. Qed.
-(* the executed trace obeys the lock discipline, contains no two adjacent conflicting accesses of
-   different threads, and any two map accesses of different threads are separated by the first
-   thread's Unlock followed by the second thread's Lock — the release/acquire pair through which
-   the Go memory model orders them. *)
-Theorem C06_race_free : forall s sched s' tr,
-  well_locked s -> lrun s sched = Some (s', tr) ->
-  trace_ok tr = true /\ has_adjacent_race tr = false /\
-  forall pre t1 w1 mid t2 w2 post, tr = pre ++ (t1, AMap w1) :: mid ++ (t2, AMap w2) :: post -> t1 <> t2 ->
-    exists m1 m2 m3, mid = m1 ++ (t1, AUnlock) :: m2 ++ (t2, ALock) :: m3.
+(* Any number of threads, any schedule, any branches: for every location whose conflicting access pairs all
+   share a mutex (held exclusively by one of the two at least), no reachable state is a race state. *)
+Theorem C06_race_free : forall T roles sched s tr,
+  table_wf T = true -> roles_ok T roles -> trun T roles tinit sched = Some (s, tr) ->
+  forall l, loc_ok T l = true -> ~ race_state T s l.
 Proof. exact race_free. Qed.
 
-(* The pre-repair routines (plain map accesses in Watch and Submit) do race. *)
-Theorem C06_legacy_refuted :
-  let s := mkL None (fun t => match t with 0%nat => legacy_register | 1%nat => legacy_lookup | _ => [] end) in
-  exists s' tr, lrun s [0%nat; 1%nat] = Some (s', tr) /\ has_adjacent_race tr = true /\ trace_ok tr = false /\
-                routine_ok legacy_register = false.
-Proof. exact legacy_races. Qed.
+(* Trace form (the shape of a race report): two conflicting accesses by different threads are never adjacent
+   in an executed trace, unless the checker has refused their location. *)
+Theorem C06_no_adjacent_race : forall T roles sched s tr,
+  table_wf T = true -> roles_ok T roles -> trun T roles tinit sched = Some (s, tr) ->
+  forall pre t1 n1 l m1 t2 n2 m2 post,
+    tr = pre ++ EAct t1 n1 (AAcc l m1) :: EAct t2 n2 (AAcc l m2) :: post ->
+    t1 <> t2 -> conflict m1 m2 = true -> loc_ok T l = false.
+Proof. exact no_adjacent_race. Qed.
 
-(* Non-vacuity: three threads running routines of conn.go, interleaved. *)
-Example C06_example :
-  exists reg unreg take, In reg (map snd conn_routines) /\ In unreg (map snd conn_routines) /\ In take (map snd conn_routines) /\
-  let s := mkL None (fun t => match t with 0%nat => reg ++ unreg | 1%nat => take ++ take | 2%nat => reg | _ => [] end) in
-  well_locked s /\
-  exists s' tr, lrun s [0; 0; 0; 1; 1; 1; 1; 2; 2; 2; 0; 0; 0; 1; 1; 1; 1]%nat = Some (s', tr) /\
-                List.length (filter (fun x => match snd x with AMap _ => true | _ => false end) tr) = 7%nat.
-Proof. exact c06_example. Qed.
+(* The code under test: the two boolean hypotheses are evaluated on the regenerated table in the cases of every run. *)
+Theorem C06_code : forall roles sched s tr,
+  table_wf conn_table = true -> roles_ok conn_table roles -> trun conn_table roles tinit sched = Some (s, tr) ->
+  forall l, loc_ok conn_table l = true -> ~ race_state conn_table s l.
+Proof. exact (race_free conn_table). Qed.
 
-Print Assumptions C06_code_routines_well_locked.
+(* A flag tested and set without a lock by an entry that two goroutines run (the shape of an unguarded
+   "closed" or "deadline" field): the checker refuses exactly that location, and a race state is reachable. *)
+Theorem C06_unguarded_refuted :
+  table_wf unguarded_table = true /\ loc_ok unguarded_table 1 = false /\ loc_ok unguarded_table 0 = true /\
+  exists s tr, trun unguarded_table (default_roles unguarded_table) tinit
+                 (map (fun p => (fst p, N.of_nat (snd p))) [(0, 2); (1, 2); (0, 0)]%nat) = Some (s, tr) /\
+               race_state unguarded_table s 1.
+Proof. exact unguarded_refuted. Qed.
+
+(* Non-vacuity: the miniature passes the checker, and three threads (two running the any-number entry, thread 0
+   the single-goroutine one) interleave and perform four accesses. *)
+Example C06_example_checked : table_wf sample_table = true /\ loc_ok sample_table 0 = true.
+Proof. exact sample_ok. Qed.
+Example C06_example_runs :
+  roles_ok sample_table (default_roles sample_table) /\
+  exists s tr, trun sample_table (default_roles sample_table) tinit
+                 (map (fun p => (fst p, N.of_nat (snd p))) [(1, 0); (0, 1); (1, 0); (1, 0); (1, 0); (0, 0); (0, 0); (2, 0); (0, 0); (0, 0); (2, 0); (2, 0); (2, 0); (1, 0); (0, 0)]%nat) = Some (s, tr) /\
+               List.length (filter (fun e => match e with EAct _ _ (AAcc _ _) => true | _ => false end) tr) = 4%nat.
+Proof. exact sample_runs. Qed.
+
+Print Assumptions C06_invariant.
 Print Assumptions C06_race_free.
-Print Assumptions C06_legacy_refuted.
+Print Assumptions C06_no_adjacent_race.
+Print Assumptions C06_code.
+Print Assumptions C06_unguarded_refuted.
